@@ -125,8 +125,8 @@ func RIdx(b, i, t N) N      { return N{"k": "ridx", "b": b, "i": i, "t": t} }
 func RDeref(p N) N          { return N{"k": "rderef", "p": p, "t": Sub(p["t"].(N), "e")} }
 func Bin(op string, t, a, b N) N { return N{"k": "bin", "op": op, "t": t, "a": a, "b": b} }
 func Un(op string, t, a N) N { return N{"k": "un", "op": op, "t": t, "a": a} }
-func Call(f string, t N, args ...N) N { return N{"k": "call", "f": f, "t": t, "args": args} }
-func Bi(f string, t N, args ...N) N   { return N{"k": "bi", "f": f, "t": t, "args": args} }
+func Call(f string, t N, args ...N) N { return N{"k": "call", "f": f, "t": t, "args": nn(args)} }
+func Bi(f string, t N, args ...N) N   { return N{"k": "bi", "f": f, "t": t, "args": nn(args)} }
 func Ctor(t N, args ...N) N  {
 	if args == nil {
 		args = []N{}
